@@ -14,18 +14,18 @@ Lemma in_sarifs s : In s sarifs. Proof. destruct s; simpl; auto. Qed.
 Definition all_worlds : list world :=
   flat_map (fun a => flat_map (fun bw => flat_map (fun bl => flat_map (fun d => flat_map (fun s =>
   flat_map (fun m1 => flat_map (fun m2 => flat_map (fun m3 => flat_map (fun m4 => flat_map (fun ai =>
-  flat_map (fun o => flat_map (fun wr => map (fun wp =>
+  flat_map (fun o => flat_map (fun wr => flat_map (fun wp => map (fun ut =>
     {| w_argparse := a; w_bad_workers := negb bw; w_bad_line := negb bl; w_dir_exists := d; w_sarif := s;
        w_miss_issues := negb m1; w_miss_hotspots := negb m2; w_miss_dd := negb m3; w_miss_contrast := negb m4;
-       w_ai_consistent := ai; w_output := o; w_write_ok := wr; w_write_partial := negb wp |})
-  bools) bools) bools) bools) bools) bools) bools) bools) sarifs) bools) bools) bools) argparses.
+       w_ai_consistent := ai; w_output := o; w_write_ok := wr; w_write_partial := negb wp; w_unreadable_target := negb ut |})
+  bools) bools) bools) bools) bools) bools) bools) bools) bools) sarifs) bools) bools) bools) argparses.
 
 Lemma negb_negb_in b : exists b', In b' bools /\ negb b' = b.
 Proof. exists (negb b). split; [apply in_bools | apply negb_involutive]. Qed.
 
 Lemma all_worlds_complete : forall w, In w all_worlds.
 Proof.
-  intros [a bw bl d s m1 m2 m3 m4 ai o wr wp]. unfold all_worlds.
+  intros [a bw bl d s m1 m2 m3 m4 ai o wr wp ut]. unfold all_worlds.
   apply in_flat_map. exists a. split; [apply in_argparses|].
   apply in_flat_map. exists (negb bw). split; [apply in_bools|].
   apply in_flat_map. exists (negb bl). split; [apply in_bools|].
@@ -38,7 +38,8 @@ Proof.
   apply in_flat_map. exists ai. split; [apply in_bools|].
   apply in_flat_map. exists o. split; [apply in_bools|].
   apply in_flat_map. exists wr. split; [apply in_bools|].
-  apply in_map_iff. exists (negb wp). split; [|apply in_bools].
+  apply in_flat_map. exists (negb wp). split; [apply in_bools|].
+  apply in_map_iff. exists (negb ut). split; [|apply in_bools].
   now rewrite !negb_involutive.
 Qed.
 
@@ -114,7 +115,8 @@ Qed.
 (** ** an exception escapes only on the input classes listed as known findings *)
 Definition crash_input (T : exit_tables) (w : world) : bool :=
   w_bad_line w || match w_sarif w with SarifMalformed => true | _ => false end
-  || (w_bad_workers w && negb (t_workers_validated T)).
+  || (w_bad_workers w && negb (t_workers_validated T))
+  || (w_unreadable_target w && negb (t_semgrep_filtered T)).
 Definition no_other_crash_ok (T : exit_tables) (w : world) : bool :=
   match run_exit T w with Crash => crash_input T w | _ => true end.
 Definition crash_counterexamples (T : exit_tables) : list world := counterexamples (fun _ => true) (no_other_crash_ok T).
@@ -135,7 +137,7 @@ Qed.
 Definition nominal : world :=
   {| w_argparse := Args; w_bad_workers := false; w_bad_line := false; w_dir_exists := true; w_sarif := SarifOk;
      w_miss_issues := false; w_miss_hotspots := false; w_miss_dd := false; w_miss_contrast := false;
-     w_ai_consistent := true; w_output := true; w_write_ok := true; w_write_partial := false |}.
+     w_ai_consistent := true; w_output := true; w_write_ok := true; w_write_partial := false; w_unreadable_target := false |}.
 
 Lemma documented_order :
   (* arguments are judged before anything on disk is consulted *)
@@ -159,11 +161,11 @@ Proof.
   split; [|split; [|split; [|split]]].
   - intros w H. unfold documented. now rewrite H.
   - intros w H. unfold documented. now rewrite H.
-  - intros [a bw bl d s m1 m2 m3 m4 ai o wr wp]; simpl. intros -> -> ->.
+  - intros [a bw bl d s m1 m2 m3 m4 ai o wr wp ut]; simpl. intros -> -> ->.
     destruct d, s, m1, m2, m3, m4; simpl; intuition congruence.
-  - intros [a bw bl d s m1 m2 m3 m4 ai o wr wp]; simpl. intros Ha Hbw Hbl Hd Hs H1 H2 H3 H4 Hai. subst.
+  - intros [a bw bl d s m1 m2 m3 m4 ai o wr wp ut]; simpl. intros Ha Hbw Hbl Hd Hs H1 H2 H3 H4 Hai. subst.
     destruct s; simpl in *; try discriminate; reflexivity.
-  - intros [a bw bl d s m1 m2 m3 m4 ai o wr wp]; simpl. split.
+  - intros [a bw bl d s m1 m2 m3 m4 ai o wr wp ut]; simpl. split.
     + destruct a; simpl; try discriminate; destruct bw; simpl; try discriminate; destruct bl; simpl; try discriminate;
       destruct d; simpl; try discriminate; destruct s; simpl; try discriminate;
       destruct m1; simpl; try discriminate; destruct m2; simpl; try discriminate; destruct m3; simpl; try discriminate;
@@ -173,34 +175,35 @@ Proof.
 Qed.
 
 (** ** the individual defects, for every value of the other tables *)
-Definition mkT (chain : list (guard_id * Z)) (used : bool) (code : Z) (groups : list result_group) (validated : bool) : exit_tables :=
-  {| t_chain := chain; t_write_used := used; t_argparse_code := code; t_groups := groups; t_workers_validated := validated |}.
+Definition mkT (chain : list (guard_id * Z)) (used : bool) (code : Z) (groups : list result_group) (validated filtered : bool) : exit_tables :=
+  {| t_chain := chain; t_write_used := used; t_argparse_code := code; t_groups := groups; t_workers_validated := validated;
+     t_semgrep_filtered := filtered |}.
 
 Definition w_unwritable : world :=
   {| w_argparse := Args; w_bad_workers := false; w_bad_line := false; w_dir_exists := true; w_sarif := SarifOk;
      w_miss_issues := false; w_miss_hotspots := false; w_miss_dd := false; w_miss_contrast := false;
-     w_ai_consistent := true; w_output := true; w_write_ok := false; w_write_partial := false |}.
+     w_ai_consistent := true; w_output := true; w_write_ok := false; w_write_partial := false; w_unreadable_target := false |}.
 (** open() succeeds, the write does not (disk full): a truncated file stays behind *)
 Definition w_partial : world :=
   {| w_argparse := Args; w_bad_workers := false; w_bad_line := false; w_dir_exists := true; w_sarif := SarifOk;
      w_miss_issues := false; w_miss_hotspots := false; w_miss_dd := false; w_miss_contrast := false;
-     w_ai_consistent := true; w_output := true; w_write_ok := false; w_write_partial := true |}.
+     w_ai_consistent := true; w_output := true; w_write_ok := false; w_write_partial := true; w_unreadable_target := false |}.
 Definition w_contrast_missing : world :=
   {| w_argparse := Args; w_bad_workers := false; w_bad_line := false; w_dir_exists := true; w_sarif := SarifOk;
      w_miss_issues := false; w_miss_hotspots := false; w_miss_dd := false; w_miss_contrast := true;
-     w_ai_consistent := true; w_output := true; w_write_ok := true; w_write_partial := false |}.
+     w_ai_consistent := true; w_output := true; w_write_ok := true; w_write_partial := false; w_unreadable_target := false |}.
 Definition w_workers : world :=
   {| w_argparse := Args; w_bad_workers := true; w_bad_line := false; w_dir_exists := true; w_sarif := SarifOk;
      w_miss_issues := false; w_miss_hotspots := false; w_miss_dd := false; w_miss_contrast := false;
-     w_ai_consistent := true; w_output := true; w_write_ok := true; w_write_partial := false |}.
+     w_ai_consistent := true; w_output := true; w_write_ok := true; w_write_partial := false; w_unreadable_target := false |}.
 Definition w_line : world :=
   {| w_argparse := Args; w_bad_workers := false; w_bad_line := true; w_dir_exists := true; w_sarif := SarifOk;
      w_miss_issues := false; w_miss_hotspots := false; w_miss_dd := false; w_miss_contrast := false;
-     w_ai_consistent := true; w_output := true; w_write_ok := true; w_write_partial := false |}.
+     w_ai_consistent := true; w_output := true; w_write_ok := true; w_write_partial := false; w_unreadable_target := false |}.
 Definition w_malformed : world :=
   {| w_argparse := Args; w_bad_workers := false; w_bad_line := false; w_dir_exists := true; w_sarif := SarifMalformed;
      w_miss_issues := false; w_miss_hotspots := false; w_miss_dd := false; w_miss_contrast := false;
-     w_ai_consistent := true; w_output := true; w_write_ok := true; w_write_partial := false |}.
+     w_ai_consistent := true; w_output := true; w_write_ok := true; w_write_partial := false; w_unreadable_target := false |}.
 
 Lemma no_missing_groups w groups :
   w_miss_issues w = false -> w_miss_hotspots w = false -> w_miss_dd w = false ->
@@ -216,8 +219,8 @@ Proof.
 Qed.
 
 (** pinned form: the status of write_report is dropped, an unwritable --output ends with status 0 *)
-Lemma unwritable_dropped chain code groups validated : forall r,
-  run_exit (mkT chain false code groups validated) w_unwritable <> Exit (documented w_unwritable) r.
+Lemma unwritable_dropped chain code groups validated filtered : forall r,
+  run_exit (mkT chain false code groups validated filtered) w_unwritable <> Exit (documented w_unwritable) r.
 Proof.
   intros r. unfold run_exit, mkT; simpl. rewrite andb_false_r.
   destruct (chain_canonical chain); [|discriminate].
@@ -225,9 +228,9 @@ Proof.
 Qed.
 
 (** a missing --contrast-vulnerabilities-xml file is not looked at unless its list reaches the existence loop *)
-Lemma contrast_unchecked chain used code groups validated :
+Lemma contrast_unchecked chain used code groups validated filtered :
   existsb (group_eqb GrContrast) groups = false -> forall r,
-  run_exit (mkT chain used code groups validated) w_contrast_missing <> Exit (documented w_contrast_missing) r.
+  run_exit (mkT chain used code groups validated filtered) w_contrast_missing <> Exit (documented w_contrast_missing) r.
 Proof.
   intros Hg r. unfold run_exit, mkT; simpl. rewrite andb_false_r.
   destruct (chain_canonical chain); [|discriminate].
@@ -235,8 +238,8 @@ Proof.
 Qed.
 
 (** --max-workers 0 passes [type=int] and ThreadPoolExecutor raises later *)
-Lemma workers_unvalidated chain used code groups :
-  run_exit (mkT chain used code groups false) w_workers = Crash.
+Lemma workers_unvalidated chain used code groups filtered :
+  run_exit (mkT chain used code groups false filtered) w_workers = Crash.
 Proof.
   unfold run_exit, mkT; simpl. destruct (chain_canonical chain); [|reflexivity].
   unfold run_body; simpl. now rewrite (no_missing_groups w_workers groups) by (auto; now left).
@@ -245,17 +248,29 @@ Qed.
 (** the two input classes left as known findings crash for every value of the tables *)
 Lemma crash_inputs T : run_exit T w_line = Crash /\ run_exit T w_malformed = Crash.
 Proof.
-  destruct T as [chain used code groups validated]. unfold run_exit; simpl. rewrite andb_false_r.
+  destruct T as [chain used code groups validated filtered]. unfold run_exit; simpl. rewrite andb_false_r.
   destruct (chain_canonical chain); [|split; reflexivity].
   unfold run_body; simpl. split; [|reflexivity].
   now rewrite (no_missing_groups w_line groups) by (auto; now left).
 Qed.
 
 (** pinned form on a partial write: status 0 while only a truncated file exists *)
-Lemma partial_dropped chain code groups validated :
+Lemma partial_dropped chain code groups validated filtered :
   chain_canonical chain = true ->
-  run_exit (mkT chain false code groups validated) w_partial = Exit 0 RPartial.
+  run_exit (mkT chain false code groups validated filtered) w_partial = Exit 0 RPartial.
 Proof.
   intros Hc. unfold run_exit, mkT; simpl. rewrite andb_false_r, Hc.
   unfold run_body; simpl. now rewrite (no_missing_groups w_partial groups) by (auto; now left).
+Qed.
+
+(** a file without the owner-read bit handed to semgrep: the scan fails as a whole and the exception escapes *)
+Definition w_unreadable : world :=
+  {| w_argparse := Args; w_bad_workers := false; w_bad_line := false; w_dir_exists := true; w_sarif := SarifOk;
+     w_miss_issues := false; w_miss_hotspots := false; w_miss_dd := false; w_miss_contrast := false;
+     w_ai_consistent := true; w_output := true; w_write_ok := true; w_write_partial := false; w_unreadable_target := true |}.
+Lemma unreadable_unfiltered chain used code groups validated :
+  run_exit (mkT chain used code groups validated false) w_unreadable = Crash.
+Proof.
+  unfold run_exit, mkT; simpl. rewrite andb_false_r. destruct (chain_canonical chain); [|reflexivity].
+  unfold run_body; simpl. now rewrite (no_missing_groups w_unreadable groups) by (auto; now left).
 Qed.
